@@ -4,6 +4,8 @@ import (
 	"fmt"
 	"os"
 	"sync"
+
+	"verif/harness/internal/ev"
 )
 
 // Development aid: with VERIF_SURVEY=1 discrepancies are listed (once per
@@ -24,4 +26,24 @@ func surveyHit(prop, key, msg string) bool {
 		fmt.Printf("SURVEY %s %s: %s\n", prop, key, msg)
 	}
 	return true
+}
+
+type failRec interface {
+	Fail(tb ev.TB, key string, witness any, format string, args ...any) bool
+}
+
+// c55Fail / c56Fail: rec.Fail, or in survey mode list the key and go on as if
+// it were a known finding.
+func c55Fail(rec failRec, tb ev.TB, key string, w any, format string, args ...any) bool {
+	if surveyHit("C55", key, fmt.Sprintf(format, args...)) {
+		return false
+	}
+	return rec.Fail(tb, key, w, format, args...)
+}
+
+func c56Fail(rec failRec, tb ev.TB, key string, w any, format string, args ...any) bool {
+	if surveyHit("C56", key, fmt.Sprintf(format, args...)) {
+		return false
+	}
+	return rec.Fail(tb, key, w, format, args...)
 }
